@@ -4,7 +4,7 @@
    Only statements; proofs are `exact`/short instantiations of Sched_proofs.v. *)
 From Coq Require Import List Arith ZArith Bool Lia.
 Import ListNotations.
-From GG Require Import Registry Registry_proofs Sched Sched_proofs.
+From GG Require Import Registry Registry_proofs Sched Sched_proofs Sched_failed.
 
 (* calls that have not started, registering pairwise distinct fresh identities *)
 Definition wf_calls (ts : list tstate) : Prop :=
@@ -69,14 +69,66 @@ Proof.
 Qed.
 Print Assumptions C20_no_deadlock.
 
+(* A subscriber whose delivery failed is removed and cleaned up, at the latest, by the second critical
+   section of the publish that saw the failure (by that section itself, or earlier by an Unsubscribe
+   or by another publish that failed on it too) — whatever runs between the two sections. *)
+Theorem C20_failed_subscriber_cleaned_up :
+  forall (sched : list nat) (ts : list tstate) l' ts' b1 i id c dl b2 cl b3 u m,
+    wf_calls ts ->
+    exec sched [] ts = Some (l', ts', b1 ++ (i, BPub1 id c dl) :: b2 ++ (i, BPub2 cl) :: b3) ->
+    In (u, m, false) dl ->
+    In u (cleaned (b1 ++ (i, BPub1 id c dl) :: b2 ++ [(i, BPub2 cl)])).
+Proof.
+  intros sched ts l' ts' b1 i id c dl b2 cl b3 u m Hw He Hf.
+  eapply (exec_failed_cleaned sched [] ts [] [] l' ts' _ (wf_calls_Inv ts Hw)); eauto.
+  - intros s H. inversion H.
+  - intros s H. inversion H.
+Qed.
+Print Assumptions C20_failed_subscriber_cleaned_up.
+
+(* ... and it receives nothing once that publish has finished (the check
+   "failed-subscriber-still-receives-events" the harness applies to the observed block log). *)
+Theorem C20_failed_subscriber_receives_nothing_afterwards :
+  forall (sched : list nat) (ts : list tstate) l' ts' b1 i id c dl b2 cl b3 u m,
+    wf_calls ts ->
+    exec sched [] ts = Some (l', ts', b1 ++ (i, BPub1 id c dl) :: b2 ++ (i, BPub2 cl) :: b3) ->
+    In (u, m, false) dl ->
+    forall m' ok, ~ In (Deliver u m' ok) (strace b3).
+Proof.
+  intros sched ts l' ts' b1 i id c dl b2 cl b3 u m Hw He Hf m' ok.
+  pose proof (C20_failed_subscriber_cleaned_up _ _ _ _ _ _ _ _ _ _ _ _ _ _ Hw He Hf) as Hc.
+  destruct (exec_safe sched [] ts [] (wf_calls_Inv ts Hw)) as [l2 [ts2 [bs2 [E [T _]]]]].
+  rewrite He in E. inversion E; subst bs2. clear E.
+  replace (b1 ++ (i, BPub1 id c dl) :: b2 ++ (i, BPub2 cl) :: b3)
+    with ((b1 ++ (i, BPub1 id c dl) :: b2 ++ [(i, BPub2 cl)]) ++ b3) in T
+    by (rewrite <- app_assoc; simpl; rewrite <- app_assoc; reflexivity).
+  unfold strace in T. rewrite flat_map_app in T. apply trace_ok_app in T. destruct T as [_ T].
+  eapply trace_ok_dead_no_delivery; eauto. apply (cleaned_dead [] _ u Hc).
+Qed.
+Print Assumptions C20_failed_subscriber_receives_nothing_afterwards.
+
+(* Non-vacuity: two subscribers fail on one event, an Unsubscribe removes the first of them between
+   the two sections of the publish, the second section removes the other; the next event reaches nobody. *)
+Example C20_failed_nonvacuous :
+  let ts := [TSub [mkSub 1 None [0] [true]]; TSub [mkSub 2 (Some 0) [1] [true]];
+             TPub1 0 [Some 3%Z; Some 2%Z]; TUnsub 1; TPub1 0 [Some 4%Z; Some 2%Z]] in
+  wf_calls ts /\
+  exists l bs, exec [0; 1; 2; 3; 2; 4; 4] [] ts = Some (l, [TDone; TDone; TDone; TDone; TDone], bs) /\
+    strace bs = [Deliver 1 [(0, Some 3%Z)] false; Deliver 2 [(1, Some 2%Z)] false; Cleanup 1; Cleanup 2].
+Proof.
+  split.
+  - split; [simpl; repeat constructor; simpl; intuition discriminate|repeat constructor].
+  - eexists; eexists. split; vm_compute; reflexivity.
+Qed.
+
 (* The executable forms of the guarantees (the checks the harness applies to the implementation's
    observed block log) hold of every model execution. *)
 Theorem C20_checks_hold :
   forall (sched : list nat) (ts : list tstate) l' ts' bs,
     wf_calls ts -> exec sched [] ts = Some (l', ts', bs) ->
-    once_okb bs = true /\ visible_okb [] bs = true /\ trace_okb [] (strace bs) = true.
+    once_okb bs = true /\ visible_okb [] bs = true /\ trace_okb [] (strace bs) = true /\ late_okb bs = true.
 Proof.
-  intros sched ts l' ts' bs Hw He. split; [|split].
+  intros sched ts l' ts' bs Hw He. split; [|split; [|split]]; [| | |eapply exec_late_okb; eauto using wf_calls_Inv].
   - eapply exec_once_okb; eauto using wf_calls_Inv.
   - eapply exec_visible_okb; eauto using wf_calls_Inv. intros s H. inversion H.
   - apply trace_okb_spec.
